@@ -348,10 +348,18 @@ pub trait ExSeek {
 /// stand-in for the `bytemuck` crate (only referenced from bodies that stay external to Verus; Kani checks them)
 pub mod bytemuck {
 use vstd::prelude::*;
+/// bytemuck panics unless the byte length is a whole number of B (and the slice is aligned for B: not modelled, the
+/// sorter buffer is allocated with EntryBound alignment -- Kani c17_buffer_layout_alloc_dealloc)
 #[verifier::external_body]
-pub fn cast_slice<A, B>(a: &[A]) -> &[B] { unimplemented!() }
+pub fn cast_slice<A, B>(a: &[A]) -> (r: &[B])
+    requires size_of::<B>() > 0, (a@.len() * size_of::<A>()) % (size_of::<B>() as int) == 0,
+    ensures r@.len() * size_of::<B>() == a@.len() * size_of::<A>(),
+{ unimplemented!() }
 #[verifier::external_body]
-pub fn cast_slice_mut<A, B>(a: &mut [A]) -> &mut [B] { unimplemented!() }
+pub fn cast_slice_mut<A, B>(a: &mut [A]) -> (r: &mut [B])
+    requires size_of::<B>() > 0, (old(a)@.len() * size_of::<A>()) % (size_of::<B>() as int) == 0,
+    ensures r@.len() * size_of::<B>() == old(a)@.len() * size_of::<A>(), final(r)@.len() == r@.len(), final(a)@.len() == old(a)@.len(),
+{ unimplemented!() }
 }
 /// stand-in for the `byteorder` crate: read_uN/write_uN are read_exact/write_all of the fixed-endian encoding
 pub mod byteorder {
